@@ -1,7 +1,7 @@
 (* The comparer accepts a named, well-formed netlist value compared with itself (and hence with
    any structurally equal copy: a copy is the same value). *)
 From Coq Require Import String List Arith NArith ZArith Bool Lia.
-From SV Require Import Base.Base Cmp.Comparer Proofs.CmpBase.
+From SV Require Import Base.Base Cmp.Comparer Proofs.CmpBase Proofs.CmpPinSet.
 Import ListNotations.
 
 Ltac split_andb :=
@@ -141,11 +141,59 @@ Proof.
     + specialize (Hio i Hin). unfold asg_ok in Hio. rewrite Hn in Hio. assumption.
 Qed.
 
-Lemma cmp_pins_refl x io w :
-  (forall i, In i io -> asg_ok i) -> forallb (wf_pin io) w = true -> cmp_pins x x io io w w = Accept.
+Lemma zip_pins_refl x io w :
+  (forall i, In i io -> asg_ok i) -> forallb (wf_pin io) w = true -> zip_pins x x io io w w = Accept.
 Proof.
   intros Hio. induction w as [|p w IH]; cbn; intro H; [reflexivity|].
   apply andb_true_iff in H as [H1 H2]. rewrite cmp_pin_refl, IH by assumption. reflexivity.
+Qed.
+
+(* ---------- the key of a well-formed pin: read off the pin designator ---------- *)
+Definition raw_key (p : pinref) : outcome + pkey :=
+  match p with
+  | PIn q b => inr (false, None, q, b)
+  | POut n q b | PDang n _ _ q b =>
+    match inst_key n with inl e => inl e | inr k => inr (true, k, q, b) end
+  | PLoose => inl AttrErr
+  | PForeign => inl Ill
+  end.
+
+Lemma pin_key_raw x io p : wf_pin io p = true -> pin_key x io p = raw_key p.
+Proof.
+  destruct p as [q b|[n|] q b| | |]; cbn [wf_pin]; try discriminate; intro H; [reflexivity|].
+  unfold pin_key. cbn [resolve].
+  destruct (find (has_name i_name n) io) as [i|]; [|discriminate].
+  destruct (i_ref i) as [r|]; [|discriminate]. reflexivity.
+Qed.
+
+Lemma raw_key_wf io p : (forall i, In i io -> asg_ok i) -> wf_pin io p = true ->
+  exists k, raw_key p = inr k.
+Proof.
+  intros Hio. destruct p as [q b|[n|] q b| | |]; cbn [wf_pin]; try discriminate; intro H; [cbn; eauto|].
+  destruct (find (has_name i_name n) io) as [i|] eqn:Ef; [|discriminate].
+  apply find_has_name_some in Ef as [Hin Hn]. specialize (Hio i Hin). unfold asg_ok in Hio.
+  rewrite Hn in Hio. cbn [raw_key inst_key].
+  destruct (starts_with asg_prefix n); [|eauto]. destruct (Hio eq_refl) as [w ->]. eauto.
+Qed.
+
+Lemma pin_key_wf x io p : (forall i, In i io -> asg_ok i) -> wf_pin io p = true ->
+  exists k, pin_key x io p = inr k.
+Proof. intros Hio H. rewrite (pin_key_raw x io p H). eapply raw_key_wf; eassumption. Qed.
+
+Lemma Forall2_same {A} (R : A -> A -> Prop) l : (forall x, In x l -> R x x) -> Forall2 R l l.
+Proof.
+  induction l as [|x l IH]; intro H; constructor; [apply H; left; reflexivity|].
+  apply IH. intros y Hy. apply H. right. assumption.
+Qed.
+
+(* a wire against itself: the same keys position by position, so every pin meets itself *)
+Lemma cmp_wire_refl x io w :
+  (forall i, In i io -> asg_ok i) -> forallb (wf_pin io) w = true -> cmp_wire x x io io w w = Accept.
+Proof.
+  intros Hio H. rewrite cmp_wire_zip.
+  - apply zip_pins_refl; assumption.
+  - intros c Hc. apply pin_key_wf; [assumption|]. rewrite forallb_forall in H. apply H. assumption.
+  - apply Forall2_same. reflexivity.
 Qed.
 
 Lemma cmp_wires_refl x io ws :
@@ -153,8 +201,7 @@ Lemma cmp_wires_refl x io ws :
   cmp_wires x x io io ws ws = Accept.
 Proof.
   intros Hio. induction ws as [|w ws IH]; cbn; intro H; [reflexivity|].
-  apply andb_true_iff in H as [H1 H2]. unfold cmp_wire.
-  rewrite Nat.eqb_refl, cmp_pins_refl, IH by assumption. reflexivity.
+  apply andb_true_iff in H as [H1 H2]. rewrite cmp_wire_refl, IH by assumption. reflexivity.
 Qed.
 
 Lemma cmp_cable_refl x io c :
